@@ -81,6 +81,9 @@ func fitCheckKept(sum *Summary, c json.RawMessage) {
 	}
 }
 
+var fitBufX, fitBufY = make([]float64, 64), make([]float64, 64)
+var fitPrev = map[int][2][]float64{}
+
 func fitReplay(in io.Reader, raw bool, args []string) (*Summary, error) {
 	sum := &Summary{Rule: "one case per (abscissae, basis or LOESS degree/span/query, generating polynomial, perturbation, weight pattern) emitted by TLC with the exact normal equations and their exact solution; non-trivial = more data points than parameters and non-polynomial (perturbed) data; tolerances are max(1e-9, 16 eps cond(A)) relative to the solution's magnitude (LOESS: 1e-9 of the data magnitude)"}
 	rng := rand.New(rand.NewSource(baseSeed))
@@ -222,6 +225,26 @@ func fitReplay(in io.Reader, raw bool, args []string) (*Summary, error) {
 					f          func(float64) float64
 					fAt, fVal  float64
 				}{pr.Coefficients, append([]float64{}, pr.Coefficients...), pr.F, 0.75, pr.F(0.75)})
+				// the same two buffers refilled with each case's data, as a caller looping over data sets would do
+				if len(xs) <= len(fitBufX) {
+					bx, by := fitBufX[:len(xs)], fitBufY[:len(xs)]
+					if prev, ok := fitPrev[len(xs)]; ok {
+						// the previous data set of this size, fitted in the same buffers immediately before
+						copy(bx, prev[0])
+						copy(by, prev[1])
+						fit.PolynomialRegression(bx, by, nil, deg)
+					}
+					fitPrev[len(xs)] = [2][]float64{append([]float64{}, xs...), append([]float64{}, ys...)}
+					copy(bx, xs)
+					copy(by, ys)
+					pb := fit.PolynomialRegression(bx, by, w, deg)
+					for j := range pb.Coefficients {
+						if j < len(exact) && !closeRat(pb.Coefficients[j], exact[j], tol, 0) {
+							sum.viol("PolynomialRegression-reused-buffer", c, "degree %d on refilled buffers: Coefficients[%d]=%.12g want %.12g", deg, j, pb.Coefficients[j], rf(exact[j]))
+							break
+						}
+					}
+				}
 				sum.Checks++
 				if len(pr.Coefficients) != p {
 					sum.viol("PolynomialRegression", c, "%d coefficients, want %d", len(pr.Coefficients), p)
